@@ -128,6 +128,8 @@ _unused: HashMismatch
         // C25: a snapshot file is only accepted for the session and serial of the notification file
         res is Ok <==> (session_id == old(self).notify.content.session_spec()
                         && serial == old(self).notify.content.serial_spec()),
+        // C41 + C25: a wrong header is an error of this repository, never RunFailed
+        res matches Err(e) ==> !(e is RunFailed),
         *final(self) == *old(self),
 //@ fn SnapshotError::from_hash_mismatch
 //@ params
@@ -155,6 +157,7 @@ _unused: HashMismatch
         final(self).archive.path_spec() == old(self).archive.path_spec(),
 //@ closure 1
 |err: PublishError| -> (r: SnapshotError)
+    // C41 + C25: only a local archive error becomes RunFailed; a duplicate URI is DuplicateObject
     ensures err is AlreadyExists ==> r is DuplicateObject, r is RunFailed <==> err is Archive
 //@ fn SnapshotUpdate::try_update
 //@ entry
@@ -286,6 +289,9 @@ _unused: HashMismatch
         (notify.content.delta_status_spec() is Ok
             && exists|i: int| 0 <= i < notify.content.deltas_spec().len() && contradicts(#[trigger] notify.content.deltas_spec()[i], &state))
             ==> (res matches Ok(Some(r)) && r is DeltaMutation),
+        // C41 + C25: whatever the deltas contain, a failing delta only leads to the snapshot fallback
+        // (Ok(Some(reason))); the run-level error is returned only after a fault of the local archive file
+        res is Err ==> local_archive_fault(archive.path_spec()),
         // frame
         final(self).collector == old(self).collector, final(self).path == old(self).path,
         final(self).rpki_notify == old(self).rpki_notify,
@@ -326,6 +332,7 @@ _unused: HashMismatch
     ensures
         // the copy is kept as it is; only its state record is refreshed (same session and serial)
         (current matches Some(c) ==> (res is Ok ==> kept_current(c.0, c.1))),
+        res is Err ==> exists|p: PathBuf| #[trigger] local_archive_fault(p),
         final(self).collector == old(self).collector, final(self).path == old(self).path,
         final(self).rpki_notify == old(self).rpki_notify,
 //@ fn RepositoryUpdate::update
@@ -334,6 +341,9 @@ _unused: HashMismatch
     ensures
         // C25: success is reported only for one of the three ways of being up to date
         res matches Ok(true) ==> update_ok(current, *old(self).path, *old(self).rpki_notify),
+        // C41 + C25: no answer of the server (HTTP failure, bad XML, bad or conflicting deltas, a broken
+        // snapshot) makes the update return the run-level error; that only follows a local file fault
+        res is Err ==> exists|p: PathBuf| #[trigger] local_archive_fault(p),
         final(self).collector == old(self).collector, final(self).path == old(self).path,
         final(self).rpki_notify == old(self).rpki_notify,
 //@ closure 1
@@ -349,6 +359,8 @@ _unused: HashMismatch
             && exists|cur: Option<(RrdpArchive, RepositoryState)>|
                 (cur matches Some(c) ==> c.0.path_spec() == *self.path && c.1 == c.0.state())
                 && #[trigger] update_ok(cur, *self.path, *self.rpki_notify)),
+        // C41 + C25: the run-level error only after a fault of a local file
+        res is Err ==> exists|p: PathBuf| #[trigger] local_archive_fault(p),
 //@ closure 1
 |current: &(RrdpArchive, RepositoryState)| -> (r: Option<DateTime<Utc>>) ensures true
 //@ global
